@@ -524,6 +524,13 @@ class World:
                 if mm.group(1) in ('UniqueIndex', 'MultiIndex'):
                     lits = re.findall(r'"(?:[^"\\]|\\.)*"', args)[-2:] if mm.group(1) == 'MultiIndex' else re.findall(r'"(?:[^"\\]|\\.)*"', args)[-1:]
                 if not lits:
+                    # a named constant of the same file: `const NS: &str = "..";`
+                    idents = re.findall(r'\b([A-Z][A-Z0-9_]+)\b', top if mm.group(1) not in ('UniqueIndex', 'MultiIndex') else args)
+                    for idn in (idents[-1:] if mm.group(1) in ('UniqueIndex', 'MultiIndex') else idents[:1]):
+                        mc = re.search(r'\bconst\s+' + re.escape(idn) + r'\s*:\s*&\s*(?:\'static\s+)?str\s*=\s*("(?:[^"\\]|\\.)*")\s*;', text_nc)
+                        if mc:
+                            lits = [mc.group(1)]
+                if not lits:
                     raise Inconclusive(f'unsupported: the namespace of a storage handle in {m["file"]} is not a string literal: {mm.group(0)}{args[:60]}')
                 line = text_nc.count('\n', 0, mm.start()) + 1
                 # name: the const / let it initialises, else file:line
